@@ -27,6 +27,13 @@ DIRECTED = {
             {"hold": {"ev": "SP_RETRACT", "who": "T1"}, "until": {"ev": "SCAN_BEGIN", "tgt": "T1"}, "timeout_ms": 400, "max": 4},
             {"hold": {"ev": "SCAN_END", "who": "T0", "tgt": "T1"}, "until": {"ev": "DISPATCH", "who": "T1"}, "timeout_ms": 400, "max": 4}],
     },
+    "late_register": {
+        "prelude": "(define to2 (channels/new)) (define from2 (channels/new))",
+        "main": "(define t2 (spawn-native-thread (lambda () (channel/recv (channels-receiver to2)) (#%gc-collect) (channel/send (channels-sender from2) 1) 'ok))) "
+                "(define t1 (spawn-native-thread (lambda () (let ([b (box 'v0)]) (channel/send (channels-sender to2) 1) (channel/recv (channels-receiver from2)) (unbox b))))) "
+                "(list (thread-join! t1) (thread-join! t2))",
+        "barriers": [{"hold": {"ev": "REGISTERING", "who": "T0"}, "until": {"ev": "STW_END", "who": "T1"}, "timeout_ms": 2000, "skip": 1, "max": 1}],
+    },
     "guard_dropped": {
         "main": "(define t1 (spawn-native-thread (lambda () (setter 20)))) (define t2 (spawn-native-thread (lambda () (setter 20)))) (thread-join! t1) (thread-join! t2)",
     },
@@ -121,6 +128,7 @@ SIGNATURES = {
     "C15a-write-to-unpublished-thread": "exit_race",
     "C15a-runs-while-scanned": "exit_race",
     "C17-interrupt-overwritten": "irq_clobbered",
+    "C15-unregistered-thread-runs-during-stop": "late_register",
 }
 
 
